@@ -1,5 +1,6 @@
 import PxModel.DrvWs
 import PxModel.DrvParser
+import PxModel.DrvCodec
 import PxModel.DrvRelay
 import PxModel.DrvIdle
 import PxModel.DrvListen
@@ -7,6 +8,10 @@ import PxModel.DrvDispatcher
 import PxModel.DrvStatic
 import PxModel.DrvChain
 import PxModel.DrvExec
+import PxModel.DrvFirst
+import PxModel.DrvReverse
+import PxModel.DrvForward
+import PxModel.DrvConnect
 /-
   Line protocol driver: one operation per input line, one canonical result
   line per input line.  First token selects the model.
@@ -17,6 +22,7 @@ def dispatch (line : String) : String :=
   match (line.splitOn " ").filter (· ≠ "") with
   | "ws" :: args => Ws.drv args
   | "hp" :: args => Parser.drv args
+  | "codec" :: args => Codec.drv args
   | "disp" :: args => Disp.drv args
   | "idle" :: args => Idle.drv args
   | "listen" :: args => Listen.drv args
@@ -25,6 +31,10 @@ def dispatch (line : String) : String :=
   | "chain" :: args => Chain.drv args
   | "sel" :: args => Exec.selDrv args
   | "exec" :: args => Exec.execDrv args
+  | "rev" :: args => Reverse.drv args
+  | "fwd" :: args => Forward.drv args
+  | "conn" :: args => Connect.drv args
+  | "first" :: args => First.drv args
   | _ => "bad-op"
 
 partial def loop (h : IO.FS.Stream) (out : IO.FS.Stream) : IO Unit := do
